@@ -3,9 +3,9 @@ CONSTANTS
   Keys <- MC_Keys
   Msgs <- MC_Msgs
   Cap = 1000
-  Retention = 1
+  Retention = 3
   MinDelay = 0
-  MaxEpoch = 6
+  MaxEpoch = 8
 INIT Init
 NEXT Next
 CHECK_DEADLOCK FALSE
